@@ -100,7 +100,7 @@ func l1Ops(kind string, num uint64, salt int) []sk.L1Op {
 		return []sk.L1Op{fresh(ridHi)}
 	case "mix":
 		f := fresh(ridA)
-		return []sk.L1Op{f, {Rollup: ridA, Exit: f.Exit}, {Rollup: ridA}, fresh(ridC), {Info: true}}
+		return []sk.L1Op{f, {Rollup: ridA, Exit: f.Exit}, {Rollup: ridA}, fresh(ridC), {Info: true}, fresh(ridB)}
 	}
 	panic("unknown l1 kind " + kind)
 }
@@ -169,11 +169,7 @@ func units(tier string) []mc.Unit {
 			}
 		}
 	}
-	pre := 2
-	if tier == "thorough" {
-		pre = 3
-	}
-	for _, w := range words(l1Kinds(tier), pre) {
+	for _, w := range words(l1Kinds(tier), l1Len(tier)-1) {
 		us = append(us, mc.Unit{Name: "l1:" + strings.Join(w, ","), Params: params{Family: "l1", Prefix: w, Len: l1Len(tier)}})
 	}
 	cont := 1
